@@ -1,4 +1,4 @@
-(** Model of [VersionNum] (src/ocfl/types.rs:45-48, 265-420): parse, display,
+(** Model of [VersionNum] (src/ocfl/types.rs:45-48, 265-420, at fix 476b184): parse, display,
     next, previous with the u32 arithmetic written out.  Two evaluation modes:
     [dbg = true]  : overflow checks on (debug build) - an overflow is a panic;
     [dbg = false] : release build - the operation wraps modulo 2^32. *)
@@ -18,24 +18,46 @@ Definition u32_wrap (x : N) : N := x mod U32MOD.
 Definition u32_op (dbg : bool) (x : N) : res N :=
   if x <=? U32MAX then Ok x else if dbg then Panic else Ok (u32_wrap x).
 
-(** u32::pow(10, e): repeated multiplication; any intermediate overflow
-    panics in debug, wraps in release (wrapping the final value is the same as
-    wrapping every step). *)
-Definition u32_pow10 (dbg : bool) (e : N) : res N :=
-  if e <=? 9 then Ok (10 ^ e)                    (* 10^9 < 2^32 *)
-  else if dbg then Panic
-  else if 32 <=? e then Ok 0                     (* 2^32 divides 10^32 *)
-  else Ok (u32_wrap (10 ^ e)).
-
 (** [x - 1] for u32 : underflow when x = 0 *)
 Definition u32_pred (dbg : bool) (x : N) : res N :=
   if x =? 0 then (if dbg then Panic else Ok U32MAX) else Ok (x - 1).
 
-(** VersionNum::next, types.rs:297-314 *)
+(** 10u32.checked_pow(e): [None] as soon as an intermediate product leaves u32,
+    in every build mode (10^9 < 2^32 <= 10^10).  Never computes 10^e for e > 9. *)
+Definition u32_checked_pow10 (e : N) : option N :=
+  if e <=? 9 then Some (10 ^ e) else None.
+
+(** VersionNum::next, types.rs:297-315 (after fix 476b184):
+      let max = match self.width { 0 => u32::MAX,
+                                   w => 10u32.checked_pow(w - 1).map_or(u32::MAX, |pow| pow - 1) };
+      if self.number >= max { return Err(..) }
+      Ok(Self { number: self.number + 1, width: self.width })
+    The u32 operations [pow - 1] and [number + 1] are written with their
+    overflow behaviour; the lemmas show they never overflow here. *)
 Definition vnext (dbg : bool) (v : vnum) : res vnum :=
   res_bind
     (if vn_width v =? 0 then Ok U32MAX
-     else res_bind (u32_pow10 dbg (vn_width v - 1)) (u32_pred dbg))
+     else match u32_checked_pow10 (vn_width v - 1) with
+          | Some p => u32_pred dbg p
+          | None => Ok U32MAX
+          end)
+    (fun max =>
+       if max <=? vn_number v then Err
+       else res_bind (u32_op dbg (vn_number v + 1)) (fun n1 => Ok (mkV n1 (vn_width v)))).
+
+(** Historical note, NOT the current code: VersionNum::next before fix 476b184
+      let max = match self.width { 0 => u32::MAX, _ => u32::pow(10, self.width - 1) - 1 };
+      if self.number + 1 > max { Err } else { Ok(number + 1) }
+    [u32::pow(10, e)]: any intermediate overflow panics in debug, wraps in release. *)
+Definition u32_pow10_before_fix (dbg : bool) (e : N) : res N :=
+  if e <=? 9 then Ok (10 ^ e)                    (* 10^9 < 2^32 *)
+  else if dbg then Panic
+  else if 32 <=? e then Ok 0                     (* 2^32 divides 10^32 *)
+  else Ok (u32_wrap (10 ^ e)).
+Definition vnext_before_fix (dbg : bool) (v : vnum) : res vnum :=
+  res_bind
+    (if vn_width v =? 0 then Ok U32MAX
+     else res_bind (u32_pow10_before_fix dbg (vn_width v - 1)) (u32_pred dbg))
     (fun max =>
        res_bind (u32_op dbg (vn_number v + 1))
          (fun n1 => if max <? n1 then Err else Ok (mkV n1 (vn_width v)))).
@@ -45,7 +67,9 @@ Definition vprev (dbg : bool) (v : vnum) : res vnum :=
   res_bind (u32_pred dbg (vn_number v))
     (fun p => if p <? 1 then Err else Ok (mkV p (vn_width v))).
 
-(** Display: "v{:0width$}" *)
+(** Display, types.rs:396-406 (after fix d5a9e2d): "v", then one '0' for every position from
+    len(digits) up to width (none when width <= len(digits)), then the decimal digits;
+    no format width, so no limit on the padding width *)
 Definition vdisplay (v : vnum) : bytes :=
   "v"%char :: pad_left0 (vn_width v) (dec_digits (vn_number v)).
 
@@ -71,14 +95,21 @@ Definition vparse (s : bytes) : res vnum :=
   | [] => Err
   end.
 
-(** The specification the property states. *)
-Definition max_for_width (w : N) : N := if w =? 0 then U32MAX else 10 ^ (w - 1) - 1.
+(** The specification the property states.  The largest number a padded object
+    can reach keeps one leading zero: 10^(w-1) - 1; a u32 never exceeds
+    u32::MAX, which is below 10^(w-1) - 1 for every w > 10
+    (Proofs: [max_for_width_min]).  Written without computing 10^(w-1) for large w. *)
+Definition max_for_width (w : N) : N :=
+  if w =? 0 then U32MAX else if w <=? 10 then 10 ^ (w - 1) - 1 else U32MAX.
 
 Definition vnext_spec (v : vnum) : res vnum :=
   if vn_number v + 1 <=? max_for_width (vn_width v)
   then Ok (mkV (vn_number v + 1) (vn_width v)) else Err.
 
-(** well-formed version numbers: what [vparse] / [v1_with_width] + [vnext] produce *)
+(** a version number that is a u32 >= 1 (what parse / v1_with_width / next produce) *)
+Definition vnumok (v : vnum) : bool := (1 <=? vn_number v) && (vn_number v <=? U32MAX).
+
+(** well-formed version numbers: number and width are u32 values *)
 Definition vwf (v : vnum) : bool :=
   (1 <=? vn_number v) && (vn_number v <=? U32MAX) && (vn_width v <=? U32MAX).
 
